@@ -1122,6 +1122,15 @@ func (e *env) scenarioC01() {
 	r := e.h.Rng
 	cur := e.priv
 	for _, id := range e.ksIDs() {
+		// every key is looked up once before the export (whatever the wallet remembers about a key must not outlive the keystore)
+		for t := range e.keyPub {
+			if t.id == id {
+				if pk := e.pubkey(t); pk != nil {
+					e.kmc.GetAddressByPubKey(pk)
+					e.kmc.GetPublicKeyOrdinal(pk)
+				}
+			}
+		}
 		_, out := e.opExport(id, cur)
 		e.do(fmt.Sprintf("export %d %s", id, e.ptok(cur)), out)
 		if !strings.HasPrefix(out, "file") {
@@ -1157,8 +1166,29 @@ func (e *env) scenarioC01() {
 				e.do(l2, o2)
 			}
 		}
-		e.do(e.opImport(fno, f.priv, -1, "none"))
+		l1, o1 := e.opImport(fno, f.priv, -1, "none")
+		e.do(l1, o1)
 		e.do(e.opImport(fno, f.priv, -1, "none")) // already present
+		if strings.HasPrefix(o1, "imported") && r.Intn(2) == 0 {
+			// "after unlocking every one of those keys can sign"
+			if !e.unlocked {
+				e.do(e.opUnlock(cur))
+			}
+			var ts []triple
+			for t := range f.addrs { // the keys the keystore had when it was exported
+				if _, known := e.keyPub[t]; known {
+					ts = append(ts, t)
+				}
+			}
+			sort.Slice(ts, func(i, j int) bool { return ts[i].branch*1000000+ts[i].idx < ts[j].branch*1000000+ts[j].idx })
+			for _, t := range ts {
+				l, o := e.opSign(t, 32)
+				e.h.Emit(l, o)
+				if e.unlocked && strings.HasPrefix(o, "err") {
+					e.fail("C01", "restored-key-cannot-sign", "keystore %d was exported, deleted and imported again; after Unlock signing for its key %d/%d fails (%s)", id, t.branch, t.idx, o)
+				}
+			}
+		}
 	}
 	if r.Intn(2) == 0 && len(e.files) > 0 {
 		// any other wallet
